@@ -10,6 +10,9 @@
 //	tree <id> <height> <post> <leaf hashes, input order> => <root> <sorted leaf hashes> | PANIC
 //	proof <id> <index> => <idx> <target> <siblings> <leaf hash> | PANIC
 //	val <id> <kind> <post> <idx> <target> <siblings> <leaf hash> <root> <levels> => <valid> <replay> | PANIC
+//	atree <id> <height> <post> <leaf-level nodes> => <root>   claimant-built tree (adversarial.go)
+//	aval <id> <kind> ... (as val)               real Validate on a proof read off a claimant-built tree
+//	vbasic <target> <#siblings> => combo | range | pass       real MsgProof.ValidateBasic (merkle part)
 //	lv <n> => <int(math.Ceil(math.Log2(float64(n))))>      (lvx: same, for n > 2^48+1)
 //	lvrun <from> <to> => <v>                    the Go expression is v for every n in [from,to]
 //	kval <id> <postSession> <postBlock> <S> <H> <U> <index> <n> => ok | err:<code> | PANIC
@@ -352,6 +355,11 @@ func goLevels(n int64) int { return int(math.Ceil(math.Log2(float64(n)))) }
 
 // val runs the real Validate and emits the val line.
 func val(t *tree, kind string, p proof, leaf pc.Proof, root hr, levels int) (bool, bool) {
+	return valOp("val", t, kind, p, leaf, root, levels)
+}
+
+// valOp: op is "val" (tree generated by the real code) or "aval" (claimant-built tree, adversarial.go).
+func valOp(op string, t *tree, kind string, p proof, leaf pc.Proof, root hr, levels int) (bool, bool) {
 	lh := leafHash(leaf)
 	shadowClimb(t.post, p.idx, p.target, p.sibs, levels)
 	res := "PANIC"
@@ -361,7 +369,7 @@ func val(t *tree, kind string, p proof, leaf pc.Proof, root hr, levels int) (boo
 		v, rp = p.toPC().Validate(t.height, toPC(root), leaf, levels)
 		res = fmt.Sprintf("%v %v", v, rp)
 	}()
-	tr.Line("val-"+kind, res != "PANIC", "val %d %s %v %d %s %s %s %s %d => %s", t.id, kind, t.post, p.idx, rHR(p.target), rHRs(p.sibs), hx(lh), rHR(root), levels, res)
+	tr.Line(op+"-"+kind, res != "PANIC", "%s %d %s %v %d %s %s %s %s %d => %s", op, t.id, kind, t.post, p.idx, rHR(p.target), rHRs(p.sibs), hx(lh), rHR(root), levels, res)
 	stats["verdict-"+strings.ReplaceAll(res, " ", "-")]++
 	return v, rp
 }
@@ -647,6 +655,17 @@ func realProofQuiet(t *tree, index int) (p proof, leaf pc.Proof, ok bool) {
 func runForge(r *gen.R, budget, max int) {
 	start := tr.Lines
 	for round := 0; tr.Lines-start < budget; round++ {
+		// claimant-built trees: every strategy once at the start, then one iteration in four
+		if round < len(advStrategies) {
+			adversarial(r, advStrategies[round])
+			continue
+		}
+		if r.Chance(1, 4) {
+			for k := 0; k < 3; k++ {
+				adversarial(r, advStrategies[r.Intn(len(advStrategies))])
+			}
+			continue
+		}
 		var n int
 		switch r.Intn(6) {
 		case 0:
